@@ -367,37 +367,43 @@ func runC19(w *World, r *Report) {
 		}
 	}
 	for _, fn := range coders {
-		var shared []string
-		seenFn := map[*ssa.Function]bool{}
-		var scan func(f *ssa.Function, d int)
-		scan = func(f *ssa.Function, d int) {
-			if seenFn[f] {
-				return
-			}
-			seenFn[f] = true
-			for _, ff := range WithAnon(f) {
-				instrsOf(ff, func(in ssa.Instruction) {
-					for _, op := range in.Operands(nil) {
-						if g, ok := (*op).(*ssa.Global); ok && isRepoGlobal(g) {
-							if pt, ok := g.Type().Underlying().(*types.Pointer); ok && isErrorType(pt.Elem()) {
-								continue
-							}
-							shared = append(shared, g.Name())
-						}
-					}
-					if c, ok := in.(ssa.CallInstruction); ok && d < 2 {
-						if h := samePkgHelper(ff, c); h != nil {
-							scan(h, d+1)
-						}
-					}
-				})
-			}
-		}
-		scan(fn, 0)
-		r.check(len(shared) == 0, "transcoders-stateless", shortFn(fn), w.Pos(fn.Pos()), "no package-level state is used while transcoding", "uses package-level "+strings.Join(uniqStrings(shared), ", "))
+		statelessObligation(w, r, "transcoders-stateless", fn)
 	}
 }
 
 func isRepoGlobal(g *ssa.Global) bool {
 	return g.Pkg != nil && strings.HasPrefix(g.Pkg.Pkg.Path(), modPath)
+}
+
+// statelessObligation: fn (and the same-package helpers it calls) touches no package-level mutable state of the
+// repository (error sentinels excepted): what it returns cannot alias storage that another call reuses.
+func statelessObligation(w *World, r *Report, rule string, fn *ssa.Function) {
+	var shared []string
+	seenFn := map[*ssa.Function]bool{}
+	var scan func(f *ssa.Function, d int)
+	scan = func(f *ssa.Function, d int) {
+		if seenFn[f] {
+			return
+		}
+		seenFn[f] = true
+		for _, ff := range WithAnon(f) {
+			instrsOf(ff, func(in ssa.Instruction) {
+				for _, op := range in.Operands(nil) {
+					if g, ok := (*op).(*ssa.Global); ok && isRepoGlobal(g) {
+						if pt, ok := g.Type().Underlying().(*types.Pointer); ok && isErrorType(pt.Elem()) {
+							continue
+						}
+						shared = append(shared, g.Name())
+					}
+				}
+				if c, ok := in.(ssa.CallInstruction); ok && d < 2 {
+					if h := samePkgHelper(ff, c); h != nil {
+						scan(h, d+1)
+					}
+				}
+			})
+		}
+	}
+	scan(fn, 0)
+	r.check(len(shared) == 0, rule, shortFn(fn), w.Pos(fn.Pos()), "no package-level state is used while transcoding", "uses package-level "+strings.Join(uniqStrings(shared), ", "))
 }
